@@ -30,7 +30,7 @@ class TranslatorMismatch(Exception):
 
 HANDLERS: dict[str, Callable] = {}
 MOVE_OPS: dict[str, tuple] = {}
-LEAK_OPS = {"aten._local_scalar_dense.default", "aten.is_nonzero.default", "aten.equal.default"}
+LEAK_OPS = {"aten._local_scalar_dense.default", "aten.is_nonzero.default", "aten.equal.default", "aten.allclose.default"}
 CONCRETE_OUT = {
     "aten.new_zeros.default",
     "aten.zeros_like.default",
@@ -379,8 +379,11 @@ class Shadow(TorchDispatchMode):
     # ------------------------------------------------------------------ leaks
     def _leak(self, name, args, out):
         t = args[0]
-        if name == "aten.equal.default":
+        if name in ("aten.equal.default", "aten.allclose.default"):
+            # allclose: floats are reals, so 'close' is modelled as 'equal' (broadcasting the operands)
             a, b = self.arr(args[0]), self.arr(args[1])
+            if a.shape != b.shape:
+                a, b = np.broadcast_arrays(a, b)
             conds = [x.eq(y).re for x, y in zip(a.ravel(), b.ravel())]
             c = T.and_(*conds)
             self.ctx.pc.append((c if out else T.not_(c), "torch.equal"))
